@@ -264,6 +264,11 @@ func genExtension(g *prng.R, idx int) extSpec {
 		}
 		m := map[string]interface{}{"id": "https://ext.example/ns#" + t, "type": "owl:Class", "subClassOf": sub, "disjointWith": []interface{}{}, "name": t,
 			"notes": "Generated extension type.", "url": "https://ext.example/ns#dfn-" + strings.ToLower(t)}
+		if i == 1 || len(es.Types) == 1 {
+			// documentation text is text: a percent sign, also at the end of
+			// a line and at the very end, and a sentence longer than a line
+			m["notes"] = "Generated extension type. The share of the work that has been done is given in %\nof the whole, and a finished piece of work stands at 100%"
+		}
 		members = append(members, m)
 		// bookkeeping for the disjointness declarations below
 		anc := map[string]bool{}
@@ -447,6 +452,14 @@ func genExtension(g *prng.R, idx int) extSpec {
 		es.Types = append(es.Types, kt)
 		members = append(members, map[string]interface{}{"id": "https://ext.example/ns#" + kt, "type": "owl:Class", "name": kt,
 			"notes": "Generated typeless value kind.", "url": "https://ext.example/ns#dfn-" + strings.ToLower(kt), "@wtf_typeless": true})
+		if idx == 0 || g.Bool() {
+			// a typed type below the typeless kind: it has the kind's
+			// properties and, unlike the kind, a type
+			kc := fmt.Sprintf("Vx%cKeyChild", letters[idx%len(letters)])
+			es.Types = append(es.Types, kc)
+			members = append(members, map[string]interface{}{"id": "https://ext.example/ns#" + kc, "type": "owl:Class", "subClassOf": ref(kt), "disjointWith": []interface{}{}, "name": kc,
+				"notes": "Generated typed type below a typeless kind.", "url": "https://ext.example/ns#dfn-" + strings.ToLower(kc)})
+		}
 		holderDomain := []interface{}{ref("Person")}
 		if g.Bool() {
 			holderDomain = append(holderDomain, ref(es.Types[0]))
